@@ -122,6 +122,11 @@ func runC07(c *Ctx) {
 	// ---- (1) NODE-COVERAGE
 	wn := p.Func(pkgFormat, "formatter.writeNode")
 	var sw *ast.TypeSwitchStmt
+	// writeNode's dispatch: its own type switch, or - when the switch was split - the type switches of the formatter
+	// methods it hands its node to (`f.writeDeclNode(node) || f.writeValueNode(node)`); the arms are read together
+	dispatchFns := map[string]bool{"writeNode": true}
+	var allClauses []*ast.CaseClause
+	var afterSwitch []ast.Stmt // what writeNode does when no arm of a split dispatch took the node
 	if wn != nil {
 		ast.Inspect(wn.Decl.Body, func(n ast.Node) bool {
 			if s, ok := n.(*ast.TypeSwitchStmt); ok && sw == nil {
@@ -129,6 +134,38 @@ func runC07(c *Ctx) {
 			}
 			return true
 		})
+		if sw != nil {
+			for _, st := range sw.Body.List {
+				allClauses = append(allClauses, st.(*ast.CaseClause))
+			}
+		} else if wn.Decl.Type.Params != nil && len(wn.Decl.Type.Params.List) == 1 && len(wn.Decl.Type.Params.List[0].Names) == 1 {
+			nodeParam := info.Defs[wn.Decl.Type.Params.List[0].Names[0]]
+			ast.Inspect(wn.Decl.Body, func(n ast.Node) bool {
+				call, ok := n.(*ast.CallExpr)
+				if !ok || len(call.Args) != 1 || identObj(info, call.Args[0]) != nodeParam || !isFormatterMethodCall(info, call) {
+					return true
+				}
+				if h := p.DeclOf(Callee(info, call)); h != nil && h.Decl.Body != nil {
+					ast.Inspect(h.Decl.Body, func(m ast.Node) bool {
+						if s, ok := m.(*ast.TypeSwitchStmt); ok {
+							dispatchFns[h.Decl.Name.Name] = true
+							if sw == nil {
+								sw = s
+							}
+							for _, st := range s.Body.List {
+								if cc := st.(*ast.CaseClause); cc.List != nil {
+									allClauses = append(allClauses, cc)
+								}
+							}
+							return false
+						}
+						return true
+					})
+				}
+				return true
+			})
+			afterSwitch = wn.Decl.Body.List
+		}
 	}
 	if sw == nil {
 		c.Fail("NODE-COVERAGE", "writeNode", token.NoPos, "formatter.writeNode or its type switch not found")
@@ -136,8 +173,7 @@ func runC07(c *Ctx) {
 		var caseTypes []types.Type
 		caseOf := map[string]*ast.CaseClause{}
 		var deflt *ast.CaseClause
-		for _, st := range sw.Body.List {
-			cc := st.(*ast.CaseClause)
+		for _, cc := range allClauses {
 			if cc.List == nil {
 				deflt = cc
 				continue
@@ -202,6 +238,12 @@ func runC07(c *Ctx) {
 			}
 		}
 		okDefault := false
+		for _, st := range afterSwitch {
+			// split dispatch: the statement after the helpers' calls records the error
+			if as, ok := st.(*ast.AssignStmt); ok && len(as.Lhs) == 1 && isFErr(info, as.Lhs[0]) && isJoinOfFErr(info, as.Rhs[0]) {
+				okDefault = true
+			}
+		}
 		if deflt != nil {
 			for _, s := range deflt.Body {
 				if as, ok := s.(*ast.AssignStmt); ok && len(as.Lhs) == 1 && isFErr(info, as.Lhs[0]) && isJoinOfFErr(info, as.Rhs[0]) {
@@ -288,8 +330,7 @@ func runC07(c *Ctx) {
 	// the leaf writers (writeRune/writeIdent/…) are reached only from writeNode
 	leaf := map[string]bool{}
 	if sw != nil {
-		for _, st := range sw.Body.List {
-			cc := st.(*ast.CaseClause)
+		for _, cc := range allClauses {
 			for _, e := range cc.List {
 				if t := info.TypeOf(e); t != nil && types.Implements(t, termIface) {
 					for _, s := range cc.Body {
@@ -307,7 +348,7 @@ func runC07(c *Ctx) {
 		}
 	}
 	for _, fr := range p.FuncsOf(pk) {
-		if fr.Decl.Body == nil || fr.Decl.Name.Name == "writeNode" {
+		if fr.Decl.Body == nil || dispatchFns[fr.Decl.Name.Name] {
 			continue
 		}
 		ast.Inspect(fr.Decl.Body, func(n ast.Node) bool {
